@@ -42,6 +42,8 @@ func main() {
 		cmdConsts(os.Args[2:])
 	case "convk":
 		cmdConvK(os.Args[2:])
+	case "bankk":
+		cmdBankK(os.Args[2:])
 	default:
 		die(70, "unknown command %s", os.Args[1])
 	}
